@@ -180,6 +180,7 @@ func (up *UsagePool) Range(f func(key, value any) bool) {
 // It panics if the usage count drops below 0; always call
 // Delete precisely as many times as LoadOrStore.
 func (up *UsagePool) Delete(key any) (deleted bool, err error) {
+	verifYield(up, 8, nil)
 	up.Lock()
 	upv, ok := up.pool[key]
 	if !ok {
